@@ -80,9 +80,6 @@ func c06HugeAlloc(data []byte) bool {
 
 // c06CheckDamaged: a damaged image must be rejected, or, if accepted, equal the original in every field and bit.
 func c06CheckDamaged(dir string, orig *Sidecar, data []byte, what string) (string, string) {
-	if c06HugeAlloc(data) {
-		return "skipped-huge-alloc", ""
-	}
 	sc, err, pan := c06Load(dir, data)
 	if pan != "" {
 		return "loadsidecar-panics", fmt.Sprintf("%s: LoadSidecar panicked: %s", what, pan)
@@ -205,10 +202,6 @@ func TestVerifC06Parser(t *testing.T) {
 				return
 			}
 			// a splice equal to neither input may still be a valid sidecar of b's identity only by CRC collision
-			if c06HugeAlloc(mut) {
-				rec.Class("excluded-huge-length-prefix")
-				return
-			}
 			sc, err, pan := c06Load(dir, mut)
 			rec.Eval()
 			rec.Class(kind)
